@@ -579,6 +579,14 @@ func tierBCorpus() []*Pool {
 			Views: []PView{{Name: "default", Attrs: []PEntry{e("a"), e("items"), e("byKey")}},
 				{Name: "tiny", Attrs: []PEntry{e("a"), e("items", "tiny"), e("byKey", "tiny")}}}}},
 		Methods: []PMethod{{Name: "get", Type: "Outer"}}})
+	// witness of the known finding self-reaching-result-type-loses-nested-attributes
+	out = append(out, &Pool{Tag: "corpus:witness-self-reaching", Witness: "self-reaching-result-type-loses-nested-attributes", Types: []*PType{
+		{Name: "R0", Attrs: []PAttr{{Name: "f00", Kind: "str", Req: true}}, Views: []PView{{Name: "default", Attrs: []PEntry{e("f00")}}}},
+		{Name: "R1", Attrs: []PAttr{{Name: "f10", Kind: "int"}, {Name: "f11", Kind: "mapres", Ref: "R1"}, {Name: "f14", Kind: "res", Ref: "R0"}},
+			Views: []PView{{Name: "default", Attrs: []PEntry{e("f10"), e("f11"), e("f14")}}, {Name: "tiny", Attrs: []PEntry{e("f10"), e("f14")}}}},
+		{Name: "Top", Attrs: []PAttr{{Name: "id", Kind: "int", Req: true}, {Name: "r", Kind: "res", Ref: "R1"}},
+			Views: []PView{{Name: "default", Attrs: []PEntry{e("id"), e("r")}}, {Name: "tiny", Attrs: []PEntry{e("id")}}}}},
+		Methods: []PMethod{{Name: "get", Type: "Top"}}})
 	out = append(out, &Pool{Tag: "corpus:recursive-below-root", Types: []*PType{
 		{Name: "Node", Attrs: []PAttr{{Name: "val", Kind: "str", Req: true}, {Name: "child", Kind: "res", Ref: "Node"}, {Name: "kids", Kind: "coll", Ref: "Node"}},
 			Views: []PView{{Name: "default", Attrs: []PEntry{e("val"), e("child"), e("kids", "tiny")}},
@@ -589,6 +597,8 @@ func tierBCorpus() []*Pool {
 		Methods: []PMethod{{Name: "get", Type: "Tree"}, {Name: "list", Type: "Tree", Coll: true}, {Name: "fixed", Type: "Tree", Fixed: "tiny"}}})
 	return out
 }
+
+var outsideTierB int
 
 // tierBRandomPool: smaller pools than tier A (compile time), always at least one type
 // with several views.
@@ -604,9 +614,12 @@ func tierBRandomPool(r *vh.RNG) *Pool {
 				multi = true
 			}
 		}
-		if multi {
+		if multi && p.insideTierB() {
 			p.makeViewBlindSafe()
 			return p
+		}
+		if multi {
+			outsideTierB++
 		}
 	}
 }
@@ -887,9 +900,14 @@ func runTierB(self, out, repo, harnessDir string, rng *vh.RNG, nDesigns, nVals i
 			case ob.Resp == nil || ob.Resp.Status != 200 || !wireOK:
 				failSig(res, "server-no-response-for-defined-view", fmt.Sprintf("no 200 response for a valid result under the defined view %q", sel), input)
 			default:
+				selfReach := p.Witness == "self-reaching-result-type-loses-nested-attributes" && !p.insideTierB()
 				if c, wh := diff(p, t, want, wire, "body"); c != "" {
 					input["expected_body"] = want
-					failSig(res, "wire-"+c, fmt.Sprintf("response body under view %q: %s at %s", sel, c, wh), input)
+					if selfReach && c == "attr-missing" {
+						failSig(res, p.Witness, fmt.Sprintf("response body under view %q: %s at %s: the values nested below a container in a result type that reaches itself lose their result-type attributes (the generated helper transform<T>To<T>View is built from the stripped top-level variant of T)", sel, c, wh), input)
+					} else {
+						failSig(res, "wire-"+c, fmt.Sprintf("response body under view %q: %s at %s", sel, c, wh), input)
+					}
 				}
 				if in.fixed == "" {
 					if hdr == nil || *hdr != sel {
@@ -906,7 +924,11 @@ func runTierB(self, out, repo, harnessDir string, rng *vh.RNG, nDesigns, nVals i
 					failSig(res, "client-error-on-valid-response", fmt.Sprintf("client returned %s: %s for a valid result under view %q", ob.ClientErr.Name, ob.ClientErr.Message, sel), input)
 				} else if c, wh := diff(p, t, want, client, "result"); c != "" {
 					input["expected_result"], input["client_result"] = want, client
-					failSig(res, "client-"+c, fmt.Sprintf("client result under view %q: %s at %s", sel, c, wh), input)
+					if selfReach && c == "attr-missing" {
+						failSig(res, p.Witness, fmt.Sprintf("client result under view %q: %s at %s", sel, c, wh), input)
+					} else {
+						failSig(res, "client-"+c, fmt.Sprintf("client result under view %q: %s at %s", sel, c, wh), input)
+					}
 				}
 			}
 			res.Sample(map[string]any{"method": in.Method, "view": in.View, "value": in.Value, "wire": input["wire"], "client": client}, 4)
@@ -933,7 +955,10 @@ func runTierB(self, out, repo, harnessDir string, rng *vh.RNG, nDesigns, nVals i
 			}
 		}
 
-		// ---- correspondence case
+		// ---- correspondence case (the model does not exhibit the aliasing of the self-reaching finding)
+		if p.Witness == "self-reaching-result-type-loses-nested-attributes" {
+			continue
+		}
 		lt := leafTab{}
 		xval := coqVal(p, t, in.Value, lt)
 		fixedTerm := "None"
@@ -978,6 +1003,7 @@ func runTierB(self, out, repo, harnessDir string, rng *vh.RNG, nDesigns, nVals i
 		}
 	}
 	res.Extra["tierB_distinct"] = len(distinct)
+	res.Dist["tierB_random_pools_outside_envelope_skipped"] = outsideTierB
 	return cases, caseInfo, nil
 }
 
